@@ -180,6 +180,8 @@ static int vr_eq(const unsigned char *a, const unsigned char *b, size_t n, size_
 #define AKI_OK      (!AKI_PRESENT || (SC->extensions.ak.keyLen == IC->extensions.sk.len && vr_eq(IC->extensions.sk.id, SC->extensions.ak.keyId, IC->extensions.sk.len, L)) || \
                      (SC->extensions.ak.keyLen == 0 && SIG_SAME))
 
+#define VERDICT_OK(c) ((c).authStatus == PS_CERT_AUTH_PASS || (c).authStatus == PS_CERT_AUTH_FAIL_EXTENSION || (c).authStatus == PS_CERT_AUTH_FAIL_AUTHKEY)
+
 #define POSTS(P) \
     P(pass_signature_verified_under_issuer_key, IMPLIES(PASS, SAME_CERT || VERIFIED)) \
     P(pass_issuer_dn_is_subject_dn_of_issuer,   IMPLIES(PASS, SAME_CERT || vr_eq(SC->issuer.hash, IC->subject.hash, 20, 20))) \
@@ -190,6 +192,7 @@ static int vr_eq(const unsigned char *a, const unsigned char *b, size_t n, size_
     P(pass_not_revoked,                         IMPLIES(PASS, SAME_CERT || (gh_crl_calls[JJ] == 1 && SC->revokedStatus != CRL_CHECK_REVOKED_AND_AUTHENTICATED))) \
     P(pass_authority_key_id_matches,            IMPLIES(PASS, SAME_CERT || AKI_OK)) \
     P(success_gives_every_step_a_verdict,       IMPLIES(RET == PS_SUCCESS, g_c0.authStatus != PS_FALSE && (NCERT < 2 || g_c1.authStatus != PS_FALSE) && (NCERT < 3 || g_c2.authStatus != PS_FALSE))) \
+    P(success_verdicts_are_pass_or_a_recorded_failure, IMPLIES(RET == PS_SUCCESS, VERDICT_OK(g_c0) && (NCERT < 2 || VERDICT_OK(g_c1)) && (NCERT < 3 || VERDICT_OK(g_c2)))) \
     P(failure_is_negative,                      RET == PS_SUCCESS || RET < 0) \
     P(primitives_asked_about_chain_members_only, gh_foreign == 0)
 
